@@ -149,16 +149,41 @@ def field_writers(f, adt, field):
                         # where does the borrow go?
                         dest = st["place"]["l"]
                         users = []
+                        repl = []
+                        # reborrows / moves of the borrow (`_b = &mut *_a`, `_b = move _a`) carry the same reference
+                        same_ref = {dest}
+                        for _round in range(3):
+                            for blk2 in body.blocks:
+                                for st2 in blk2["stmts"]:
+                                    if st2["k"] != "Assign" or st2["place"]["p"]:
+                                        continue
+                                    rv2 = st2["rv"]
+                                    src = None
+                                    if rv2["k"] == "Ref" and rv2["place"]["l"] in same_ref and all(p0 == "deref" or (isinstance(p0, dict) and p0.get("k") == "deref") or p0 == "*" for p0 in rv2["place"]["p"]):
+                                        src = rv2["place"]["l"]
+                                    elif rv2["k"] == "Use":
+                                        op = rv2.get("op") or {}
+                                        pl2 = op.get("move") or op.get("copy")
+                                        if pl2 and pl2["l"] in same_ref and not pl2["p"]:
+                                            src = pl2["l"]
+                                    if src is not None:
+                                        same_ref.add(st2["place"]["l"])
                         for b2, t in body.calls():
                             for a in t["args"]:
                                 apl = a.get("move") or a.get("copy")
-                                if apl and apl["l"] == dest:
+                                if apl and apl["l"] in same_ref and not apl["p"]:
                                     users.append(T.canon(t.get("resolved") or t.get("callee") or "?"))
+                                    if users[-1] in ("core::mem::replace",) and a is t["args"][0] and len(t["args"]) == 2:
+                                        repl.append((b2, t))
                                 elif apl:
                                     # reborrow through a temp
                                     e = body.expr_of_operand(a, 3)
                                     if any(isinstance(x, tuple) and x[0] == "field" and x[2] == field for x in M.walk(e)) and apl["l"] != dest:
                                         pass
+                        if len(users) == 1 and len(repl) == 1:
+                            # `mem::replace(&mut self.<field>, v)` stores v into the field: a plain writer
+                            out.append(("assign", name, body, repl[0][0], 0, st, body.expr_of_operand(repl[0][1]["args"][1])))
+                            continue
                         out.append(("borrow", name, body, b, i, st, tuple(sorted(set(users)))))
     return out
 
